@@ -196,22 +196,74 @@ theorem canonTop_spec : ∀ (ts : List TopItem) (b : List CMisc) (e : CItem) (a 
     · simp only [List.filterMap_cons, CMisc.erase, List.cons_append, piData_canon d (by simpa [faithfulTop] using hf.1)]
       rw [i2]
 
+theorem canon_decl_case (minor : Str) (en : Option Str) (sd : Option Bool) (ks : List TopItem) (b : List CMisc) (e : CItem) (a : List CMisc)
+    (hd1 : ∀ x, (some (⟨[' '], [], [], '"', minor, en.map (fun e => ([' '], [], [], '"', e)), sd.map (fun b => ([' '], [], [], '"', b)), []⟩ : CDecl)) = some x → okDecl x = true)
+    (i1 : miscText b ++ (e.str ++ miscText a) = ks.flatMap printTop)
+    (i2 : b.filterMap CMisc.erase ++ [TopItem.elem e.erase] ++ a.filterMap CMisc.erase = ks) :
+    printDoc ⟨some ('1' :: '.' :: minor), en, sd, ks⟩ =
+      (⟨some ⟨[' '], [], [], '"', minor, en.map (fun e => ([' '], [], [], '"', e)), sd.map (fun b => ([' '], [], [], '"', b)), []⟩, b, e, a⟩ : CDoc).str ∧
+    (⟨some ⟨[' '], [], [], '"', minor, en.map (fun e => ([' '], [], [], '"', e)), sd.map (fun b => ([' '], [], [], '"', b)), []⟩, b, e, a⟩ : CDoc).erase =
+      ⟨some ('1' :: '.' :: minor), en, sd, ks⟩ := by
+  have hx := hd1 _ rfl
+  obtain ⟨_, _, _, _, _, _, _, henc, _, _⟩ := okDecl_parts hx
+  refine ⟨?_, ?_⟩
+  · have henc' : ∀ name, en = some name → name.isEmpty = false := by
+      intro name hn
+      have := henc [' '] [] [] '"' name (by simp [hn])
+      have hne := this.2.2.2.2.2
+      cases name with
+      | nil => simp [okEncName] at hne
+      | cons c r => rfl
+    cases en with
+    | none =>
+      cases sd with
+      | none => simp [printDoc, CDoc.str, declText, CDecl.str, encText, sdText, kwVersion, i1]
+      | some bb => cases bb <;> simp [printDoc, CDoc.str, declText, CDecl.str, encText, sdText, kwVersion, kwStandalone, yesNo, i1]
+    | some name =>
+      have hn := henc' name rfl
+      cases sd with
+      | none => simp [printDoc, CDoc.str, declText, CDecl.str, encText, sdText, kwVersion, kwEncoding, hn, i1]
+      | some bb => cases bb <;> simp [printDoc, CDoc.str, declText, CDecl.str, encText, sdText, kwVersion, kwEncoding, kwStandalone, yesNo, hn, i1]
+  · cases en <;> cases sd <;> simp [CDoc.erase, i2]
+
+
 /-- the compact printer writes the canonical concrete document, and that document renders `d` -/
 theorem canonDoc_spec (d : IDoc) (cd : CDoc) (hc : canonDoc d = some cd) (hf : d.kids.all faithfulTop = true)
     (hok : cd.ok = true) : printDoc d = cd.str ∧ cd.erase = d := by
   unfold canonDoc at hc
-  split at hc
-  · cases hc
-  · next hv =>
-    simp only [Bool.or_eq_true, not_or, Bool.not_eq_true, Option.isSome_eq_false_iff, Option.isNone_iff_eq_none] at hv
-    obtain ⟨⟨hv1, hv2⟩, hv3⟩ := hv
+  cases hdecl : canonDecl d with
+  | none => rw [hdecl] at hc; cases hc
+  | some decl =>
+    rw [hdecl] at hc
     simp only [Option.map_eq_some_iff] at hc
     obtain ⟨⟨b, e, a⟩, h1, rfl⟩ := hc
-    obtain ⟨_, _, _, _, h5, _, _⟩ := CDoc.ok_parts hok
+    obtain ⟨hd1, _, _, _, h5, _, _⟩ := CDoc.ok_parts hok
     obtain ⟨i1, i2⟩ := canonTop_spec d.kids b e a h1 hf h5
     obtain ⟨v, en, sd, ks⟩ := d
-    simp only at hv1 hv2 hv3 i1 i2
-    subst hv1 hv2 hv3
-    exact ⟨by simp [printDoc, CDoc.str, i1], by simp [CDoc.erase, i2]⟩
+    simp only at i1 i2
+    unfold canonDecl at hdecl
+    simp only at hdecl
+    cases v with
+    | none =>
+      simp only at hdecl
+      split at hdecl
+      · cases hdecl
+      · next hv =>
+        simp only [Bool.or_eq_true, not_or, Bool.not_eq_true, Option.isSome_eq_false_iff, Option.isNone_iff_eq_none] at hv
+        obtain ⟨hv2, hv3⟩ := hv
+        simp only [Option.some.injEq] at hdecl
+        subst hdecl hv2 hv3
+        exact ⟨by simp [printDoc, CDoc.str, declText, i1], by simp [CDoc.erase, i2]⟩
+    | some vs =>
+      split at hdecl
+      · next heq => cases heq
+      · next minor heq =>
+        simp only [Option.some.injEq] at heq
+        subst heq
+        simp only [Option.some.injEq] at hdecl
+        subst hdecl
+        exact canon_decl_case minor en sd ks b e a hd1 i1 i2
+      · cases hdecl
+
 
 end XmlRs.Lex
